@@ -373,6 +373,8 @@ _PROXY_NAMES = ('SymInt', 'SymBool', 'SymBytes', 'SymStr', 'AtomStr', 'SymMap', 
 def proxy_rejected(e):
     """an exception that only says 'a C function does not take my proxy object': the engine's limitation, not the
     behaviour of the code under test.  Harnesses call this where they catch the code's exceptions."""
+    if _ENG[0] is None:
+        return e        # concrete run: there are no symbolic values, every exception is the code's own
     if isinstance(e, (TypeError, AttributeError, ValueError)):
         msg = str(e.args[0]) if e.args and isinstance(e.args[0], str) else ''
         if any(n in msg for n in _PROXY_NAMES):
